@@ -19,7 +19,10 @@ UriTexts == {s \in Texts : NoControls(s)} \cup {T("http://a/b?c=d&e#f"), T("a[1]
 
 Units == {<<>>, <<T("m")>>, <<<<176, 70>>>>, <<T("%")>>, <<T("$")>>, <<<<107, 87, 104, 47, 109, 178>>>>, <<T("ft/min")>>}
 PlainNumerals == {"0", "-0", "1", "-1.5", "0.1", "123456789.123", "1000000000000000000000",
-                  "9007199254740993", "0.0000001", "-12", "100"}
+                  "9007199254740993", "0.0000001", "-12", "100",
+                  \* the edges of the 64-bit integer types (integer fast paths of writers and readers)
+                  "9223372036854775807", "9223372036854775808", "18446744073709551615", "18446744073709551616",
+                  "-9223372036854775808", "-9223372036854775809"}
 ExpNumerals == {"5e-324", "1.7976931348623157e308", "1e-7", "2.5E+10"}
 
 \* day numbers
